@@ -5,7 +5,7 @@ from .. import core, diffing as DF, hashing as HS
 from ..gen import Gen, strict_eq
 from ..wire import OutOfUniverse
 
-KEYS_C03 = ['a', 'b', 'c', 'dd', 'x y', "it's", 1, 2, 10, 1.5, None, True]
+KEYS_C03 = ['a', 'b', 'c', 'dd', 'x y', "it's", 'say "x"', 1, 2, 10, 1.5, None, True]
 
 
 def in_universe(t1, t2):
